@@ -231,10 +231,14 @@ class Gen:
         elif allow_glue and self.has("glue") and self.p(0.06):
             segs = [("stmt", {"k": "g"}, "<>"), ("lit", " ")] + segs
         if allow_tags and self.has("tags") and self.p(0.15):
-            for _ in range(r.randint(1, 2)):
+            for j in range(r.randint(1, 2)):
                 t = self.words(1, 2)
-                segs.append(("lit", " "))
-                segs.append(("stmt", {"k": "tag", "b": self.body([{"k": "s", "v": chars(t)}])}, "# " + t))
+                if j == 0:
+                    segs.append(("lit", " "))
+                    segs.append(("stmt", {"k": "tag", "b": self.body([{"k": "s", "v": chars(t)}])}, "# " + t))
+                else:
+                    # (what stands between two tags belongs to the first of them)
+                    segs.append(("stmt", {"k": "tag", "b": self.body([{"k": "s", "v": chars(t)}])}, " # " + t))
         return segs
 
     @staticmethod
